@@ -425,4 +425,104 @@ def gen_quasiunit(rng, tier, np=None):
 
 QUASIUNIT = Stream('cli_quasiunit', cli.cli_harness, None, gen_quasiunit, oracle=oracle_quasiunit, kind='oracle',
                    nontrivial=lambda op, out: out.startswith('rc=0 rc2=0'), timeout=1500)
-STREAMS = [QUASIUNIT]
+
+
+# --------------------------------------------------------------------------------------------------------------
+# the corner of the property's quantifier the calibrated generator above does not reach: constant anisotropy of
+# 30:1 .. 100:1 in 2-D, aligned with the box and rotated off its axes.  FIXED scenarios (no random choice: the same
+# op lines at every seed), judged with the bands written in the property text itself, not with the tighter
+# calibrated ones:  >= 99% of the edges in [0.5, 2], max <= 4, min >= 0.1, worst mean-ratio quality >= 0.05,
+# 0.5 <= nverts/complexity <= 6.
+#
+# KNOWN FINDING (known_findings.json, site adapt:2d-rotated-anisotropy-100:1-quality-floor): on the UNCHANGED tree the
+# 100:1 field rotated 45 degrees against a structured 5x5 start mesh ends with a worst cell quality of 0.021 (floor
+# 0.05); edge lengths, the in-band fraction and the vertex count stay inside the property's bands, "adapt again"
+# reproduces the same figure, the axis-aligned 100:1 field (quality 0.66) and the 30:1 rotated field (0.10) are
+# fine.  First reported by a seeding sub-agent while calibrating its demonstration (seeded/C03_split_quality_floor_tied_to_min
+# meta.json: 0.0099 with its own quality measure; 20/70 degrees 0.05, 0.048).  The outcome of the heuristic search at the
+# extreme corner of the family, not a slip in one function: no small repair exists, so it is recorded, not fixed.  The tag
+# is attached ONLY when the scenario is a 2-D `rot` field of anisotropy >= 50:1 at least 0.15 rad off the axes AND the
+# quality floor is the only band missed AND the quality is still >= 0.005; anything else in these scenarios is a VIOLATION.
+# --------------------------------------------------------------------------------------------------------------
+PROP_MISS, PROP_LEN, PROP_Q, PROP_NPC = 0.01, (0.1, 4.0), 0.05, (0.5, 6.0)
+KNOWN_SITE = 'adapt:2d-rotated-anisotropy-100:1-quality-floor'
+ANISO_OPS_QUICK = [
+    'quasiunit dim=2 n=5,5 jitter=0 patches=sides mseed=1 metric=rot:0.4,0.004,1,0.785',
+    'quasiunit dim=2 n=5,5 jitter=0 patches=sides mseed=1 metric=aniso:0.4,0.004,1',
+    'quasiunit dim=2 n=5,5 jitter=0 patches=sides mseed=1 metric=rot:0.3,0.01,1,0.524',
+]
+ANISO_OPS_THOROUGH = ANISO_OPS_QUICK + [
+    'quasiunit dim=2 n=5,5 jitter=0 patches=sides mseed=1 metric=rot:0.3,0.003,1,1.2',
+    'quasiunit dim=2 n=5,5 jitter=0 patches=sides mseed=1 metric=aniso:0.004,0.4,1',
+    'quasiunit dim=2 n=7,4 jitter=0.2 patches=sides mseed=7 metric=rot:0.35,0.007,1,2.2',
+]
+
+
+def gen_aniso100(rng, tier, np=None):
+    return list(ANISO_OPS_QUICK if tier == 'quick' else ANISO_OPS_THOROUGH)
+
+
+def judge_prop(tag, s, which_metric='exported'):
+    """the property text's own bands -> (messages other than the quality floor, quality message or None)"""
+    out, qmsg = [], None
+    if s['miss'] > PROP_MISS * s['ne']:
+        out.append('C03 %s: %d of %d edges (%.2f%%) have %s-metric length outside [0.5, 2]; the property allows 1%%' %
+                   (tag, s['miss'], s['ne'], 100.0 * s['miss'] / max(s['ne'], 1), which_metric))
+    if s['ne'] and not s['lmin'] >= PROP_LEN[0]:
+        out.append('C03 %s: shortest edge has %s-metric length %.4f, the property says >= 0.1' % (tag, which_metric, s['lmin']))
+    if s['ne'] and not s['lmax'] <= PROP_LEN[1]:
+        out.append('C03 %s: longest edge has %s-metric length %.4f, the property says <= 4' % (tag, which_metric, s['lmax']))
+    if which_metric == 'exported':
+        if not PROP_NPC[0] <= s['npc'] <= PROP_NPC[1]:
+            out.append('C03 %s: %d vertices for metric complexity %.2f: ratio %.3f outside [0.5, 6]' %
+                       (tag, s['nv'], s['complexity'], s['npc']))
+        if not s['qmin'] >= PROP_Q:
+            qmsg = 'C03 %s: worst cell mean-ratio quality in the metric is %.4f, the property says >= 0.05' % (tag, s['qmin'])
+    return out, qmsg
+
+
+def _known_corner(d):
+    kind, _, args = d.get('metric', '').partition(':')
+    if kind != 'rot' or d.get('dim') != '2':
+        return False
+    a = [float(x) for x in args.split(',')]
+    ratio = max(a[0], a[1]) / min(a[0], a[1])
+    off = abs((a[3] % (math.pi / 2.0)))
+    off = min(off, math.pi / 2.0 - off)
+    return ratio >= 50.0 and off >= 0.15
+
+
+def oracle_aniso100(ops, impl):
+    bad = []
+    for i, (op, line) in enumerate(zip(ops, impl)):
+        d = cli.kv(op)
+        o = cli.parse_out(line)
+        if o.get('rc') != '0' or o.get('rc2') != '0':
+            bad.append((i, 'C03 adapt exited with status %s (first adaptation) / %s (adapt again) on a valid mesh and '
+                           'a constant SPD metric' % (o.get('rc'), o.get('rc2'))))
+            continue
+        other, qual = [], []
+        for which, tag in ((1, 'adapted mesh'), (2, 'mesh adapted again')):
+            try:
+                se, sa = measure_case(d, o, which)
+            except Exception as ex:
+                other.append('C03 %s: output not measurable by the independent reader: %r' % (tag, ex))
+                continue
+            a, q = judge_prop(tag, se)
+            b, _ = judge_prop(tag, sa, 'analytic')
+            other += a + b
+            if q:
+                qual.append((q, se['qmin']))
+        for msg in other:
+            bad.append((i, msg))
+        for msg, qmin in qual:
+            if not other and _known_corner(d) and qmin >= 0.005:
+                bad.append((i, msg, KNOWN_SITE))
+            else:
+                bad.append((i, msg))
+    return bad
+
+
+ANISO100 = Stream('cli_quasiunit_aniso100', cli.cli_harness, None, gen_aniso100, oracle=oracle_aniso100, kind='oracle',
+                  nontrivial=lambda op, out: out.startswith('rc=0 rc2=0'), timeout=1500)
+STREAMS = [QUASIUNIT, ANISO100]
